@@ -397,14 +397,22 @@ def replace_matching_item(
                 output_line = compiled_re.sub(_LINE_SCRUBBED_MESSAGE, output_line)
                 break
 
-            # This is text preceding the password and shouldn't be anonymized
-            prefix = match.group("prefix") if "prefix" in match.groupdict() else ""
-            # re.sub replaces the entire matching string, which includes prefix
-            # Therefore, anon_val should have prefix prepended if applicable
-            anon_val = prefix + _anonymize_value(
-                match.group(sensitive_item_num), pwd_lookup, reserved_words, salt
-            )
-            output_line = compiled_re.sub(anon_val, output_line)
+            def _replace(item_match, item_num=sensitive_item_num):
+                # This is text preceding the password and shouldn't be anonymized
+                prefix = (
+                    item_match.group("prefix")
+                    if "prefix" in item_match.groupdict()
+                    else ""
+                )
+                # re.sub replaces the entire matching string, which includes prefix
+                # Therefore, anon_val should have prefix prepended if applicable
+                return prefix + _anonymize_value(
+                    item_match.group(item_num), pwd_lookup, reserved_words, salt
+                )
+
+            # Use a function so each match gets its own replacement and the
+            # replacement is inserted literally (not as a regex template)
+            output_line = compiled_re.sub(_replace, output_line)
 
         # If any matches existed in this regex group, stop processing more regexes
         if match_found:
